@@ -73,10 +73,16 @@ func payload(f *Field) (get func() *Type, set func(*Type)) {
 	return func() *Type { return f.Type }, func(x *Type) { f.Type = x }
 }
 
+// lastNumericChange: "from->to" of the most recent change-numeric-primitive edit (for the evidence histogram).
+var lastNumericChange string
+
+// LastNumericChange returns and clears the record of the most recent numeric primitive change.
+func LastNumericChange() string { s := lastNumericChange; lastNumericChange = ""; return s }
+
 var numericChain = map[string][]string{
-	"int8": {"int16", "int32", "int64", "float32", "float64"}, "int16": {"int32", "int64", "float64", "int8"}, "int32": {"int64", "float64", "int16", "uint32"},
-	"int64": {"int32", "float64", "uint64"}, "uint8": {"uint16", "uint32", "int16"}, "uint16": {"uint32", "int32", "uint8"}, "uint32": {"uint64", "int64", "float64"},
-	"uint64": {"uint32", "int64", "float64"}, "size": {"uint32", "int64"}, "float32": {"float64", "int32"}, "float64": {"float32", "int64"},
+	"int8": {"int16", "int32", "int64", "float32", "float64"}, "int16": {"int32", "int64", "float64", "int8"}, "int32": {"int64", "float64", "int16", "uint32", "size"},
+	"int64": {"int32", "float64", "uint64", "size"}, "uint8": {"uint16", "uint32", "int16", "size"}, "uint16": {"uint32", "int32", "uint8"}, "uint32": {"uint64", "int64", "float64", "size"},
+	"uint64": {"uint32", "int64", "float64", "size"}, "size": {"uint32", "int64", "uint64", "uint16", "float64"}, "float32": {"float64", "int32"}, "float64": {"float32", "int64", "size"},
 }
 
 // addAlias appends `Base<n>: ty` to the package and returns a reference to it.
@@ -257,6 +263,15 @@ var EvoEdits = []EvoEdit{
 		cur := get()
 		alts := numericChain[inner(cur).Prim]
 		np := Prim(alts[pickInt(t, "to", len(alts))])
+		if pickInt(t, "toSize", 6) == 0 {
+			// `size` is a primitive of its own in the conversion tables although it is laid out like uint64
+			for _, a := range alts {
+				if a == "size" {
+					np = Prim("size")
+				}
+			}
+		}
+		defer func(from string) { lastNumericChange = from + "->" + np.Prim }(inner(cur).Prim)
 		if cur.Kind == KPrim {
 			set(np)
 		} else {
